@@ -222,17 +222,23 @@ static Body make_M(int cache_mode, int variant, int threads)
 // ------------------------------------------------------------------------------------------------ body D
 struct ObjSetup
 {
-  shared_ptr<Scanner> sc; shared_ptr<ProjDataInfo> pdi; shared_ptr<VoxelsOnCartesianGrid<float>> im; shared_ptr<ProjDataInMemory> data;
+  shared_ptr<Scanner> sc; shared_ptr<ProjDataInfo> pdi; shared_ptr<VoxelsOnCartesianGrid<float>> im; shared_ptr<ProjData> data;
   shared_ptr<PoissonLogLikelihoodWithLinearModelForMeanAndProjData<DiscretisedDensity<3, float>>> obj;
 };
-static ObjSetup make_obj(bool cache)
+static ObjSetup make_obj(bool cache, bool stream_data = false)
 {
   ObjSetup s;
   s.sc = small::cyl_scanner(8, 2);
   s.pdi = small::make_pdi(s.sc, 1, 1);
   s.im = small::make_image(*s.pdi);
   int k = 0; for (auto it = s.im->begin_all(); it != s.im->end_all(); ++it) *it = 1.F + 0.25F * (k++ % 5);
-  s.data = small::make_projdata(s.pdi);
+  if (!stream_data) s.data = small::make_projdata(s.pdi);
+  else
+    { // measured data behind ONE shared stream position (ProjDataFromStream): every read is a seek + read under the named critical section
+      shared_ptr<ExamInfo> ex(new ExamInfo); ex->imaging_modality = ImagingModality::PT;
+      shared_ptr<std::iostream> str(new std::stringstream(std::ios::in | std::ios::out | std::ios::binary));
+      s.data.reset(new ProjDataFromStream(ex, s.pdi, str));
+    }
   { std::vector<double> v(small::all_bins(*s.pdi).size()); for (size_t i = 0; i < v.size(); ++i) v[i] = 1 + (i * 7) % 5; small::unflat(*s.data, v); }
   s.obj.reset(new PoissonLogLikelihoodWithLinearModelForMeanAndProjData<DiscretisedDensity<3, float>>());
   shared_ptr<ProjMatrixByBinUsingRayTracing> m(new ProjMatrixByBinUsingRayTracing());
@@ -245,15 +251,15 @@ static ObjSetup make_obj(bool cache)
   s.obj->set_recompute_sensitivity(true);
   return s;
 }
-static Body make_D(const std::string& what, int threads, bool cache, int setup_threads)
+static Body make_D(const std::string& what, int threads, bool cache, int setup_threads, bool stream_data = false)
 {
   Body b;
-  b.name = "D:" + what + ":t=" + std::to_string(threads) + ":cache=" + std::to_string(cache) + ":setup_t=" + std::to_string(setup_threads);
+  b.name = "D:" + what + ":t=" + std::to_string(threads) + ":cache=" + std::to_string(cache) + ":setup_t=" + std::to_string(setup_threads) + (stream_data ? ":stream=1" : "");
   b.threads = threads;
   b.exact = false;
-  b.run = [what, cache, setup_threads]() {
+  b.run = [what, cache, setup_threads, stream_data]() {
     const int use_threads = omp_get_max_threads();
-    ObjSetup s = make_obj(cache);
+    ObjSetup s = make_obj(cache, stream_data);
     std::string out;
     if (what == "sensitivity")
       { // set_up computes the subset sensitivity through distributable_computation: explored
@@ -404,7 +410,10 @@ static Body make_LM(int threads, int cache_size)
     obj->set_num_subsets(1);
     obj->set_use_subset_sensitivities(true);
     obj->set_recompute_sensitivity(true);
-    obj->set_cache_path(".");
+    // the list-mode cache files live in a directory of this process: the shards of one run share their working directory, and a cache
+    // file rewritten by another shard between set_up() and the gradient would look like a schedule-dependent result
+    static const std::string cache_dir = [] { std::string d = "./lmcache_" + std::to_string((long)getpid()); (void)!system(("mkdir -p " + d).c_str()); return d; }();
+    obj->set_cache_path(cache_dir);
     obj->set_cache_max_size((unsigned long)cache_size);
     obj->set_recompute_cache(true);
     shared_ptr<DiscretisedDensity<3, float>> est(im->clone());
@@ -485,8 +494,11 @@ static std::vector<Body> bodies(bool thorough, bool tsan)
   v.push_back(make_D("bck2", 2, false, 3));  // the same projector used by 3 threads, then by 2 (per-thread accumulators of the first call must not leak)
   v.push_back(make_D("bck2", 3, false, 2));
   v.push_back(make_D("gradient", 3, false, 1));
+  // measured data read through ProjDataFromStream (one shared file position) from inside the parallel loops
+  for (const char* w : { "hessian", "gradient", "bck" }) v.push_back(make_D(w, 2, false, 2, true));
   if (thorough)
     {
+      for (const char* w : { "hessian", "value" }) v.push_back(make_D(w, 3, false, 3, true));
       for (const char* w : { "gradient", "value", "bck", "fwd" }) v.push_back(make_D(w, 3, false, 3));
       v.push_back(make_D("bck", 2, false, 3));
       v.push_back(make_D("gradient", 4, false, 4));
@@ -520,7 +532,7 @@ int main(int argc, char** argv)
   std::string only_body;
   for (size_t i = 0; i + 1 < ctx.extra_args.size(); ++i) if (ctx.extra_args[i] == "--body") only_body = ctx.extra_args[i + 1];
   int max_bound = ctx.thorough() ? 2 : 1;
-  if (tsan) max_bound = ctx.thorough() ? 1 : 0;
+  if (tsan) max_bound = 1; // one preemption is needed before a second thread gets any chunk of a dynamic loop: bound 0 would leave the loop bodies single-threaded
   for (size_t i = 0; i + 1 < ctx.extra_args.size(); ++i) if (ctx.extra_args[i] == "--bound") max_bound = atoi(ctx.extra_args[i + 1].c_str());
 
   // ---- model-conformance mode (DESIGN 3.5, harness C18_model): for the given L bodies, explore ALL schedules (no preemption bound)
